@@ -3,7 +3,7 @@ Independent reference: imports nothing from gunicorn.  DESIGN.md Appendix B."""
 import re
 
 TOKEN = re.compile(rb"[!#$%&'*+\-.^_`|~0-9A-Za-z]+")
-STATUS = re.compile(rb"HTTP/1\.([01]) ([0-9]{3}) ([^\r\n]*)")
+STATUS = re.compile(rb"HTTP/1\.([0-9]) ([0-9]{3}) ([^\r\n]*)")
 HEX = re.compile(rb"[0-9A-Fa-f]+")
 DATE = re.compile(rb"(Mon|Tue|Wed|Thu|Fri|Sat|Sun), [0-9]{2} (Jan|Feb|Mar|Apr|May|Jun|Jul|Aug|Sep|Oct|Nov|Dec) [0-9]{4} [0-9]{2}:[0-9]{2}:[0-9]{2} GMT")
 
